@@ -142,7 +142,7 @@ REP_PARAMS = [
 
 def rep_tasks(oracles, budget, graphs=None, params=None, exit_sets=None, cancel_sets=None, **kw):
     tasks = []
-    graphs = graphs or [g for g in S.REP if g not in ("cancelfan7", "indep4", "wide5", "fan5", "joinbacklog5")]  # heavy ones only when named
+    graphs = graphs or [g for g in S.REP if g not in ("cancelfan7", "indep4", "wide5", "fan5", "joinbacklog5", "indep11")]  # heavy ones only when named
     for g in graphs:
         bb = S.REP[g]
         n = len(bb)
@@ -225,9 +225,11 @@ def c01(tier):
             t["weight"] = 10
         tasks += heavy
         tasks += user_round_tasks(["C01"], (0, 0), ["indep3", "fork"])
+        tasks += user_round_tasks(["C01"], (1, 0), ["chain2"], params=[("sz1-mxN", dict(size=1, max_nodes=None))])
         tasks += outcome_tasks(["C01"], ns=(2, 3), params=[C03_PARAMS[0], C03_PARAMS[1], C03_PARAMS[4]])
         tasks += c01_refusal_tasks(tier)
-        bounds = "inputs: G(1..3) x parameter grid at budget 0 (all job-finish orders); schedules: 7 REP graphs x 4 parameter sets at 1 preemption; a user-run try-submit-jobs from the login host and from another host starting at any point (free start) on 2 graphs; G(2..3) x exit codes x cancel flags x 3 parameter sets at budget 0; any one batch refused by the scheduler on 4 graphs (batch numbering)"
+        tasks += rep_tasks(["C01"], (0, 0), graphs=["indep11"], params=[("sz1-mx2", dict(size=1, max_nodes=2))], finish_orders="default")
+        bounds = "11 batches (two-digit batch numbers); inputs: G(1..3) x parameter grid at budget 0 (all job-finish orders); schedules: 7 REP graphs x 4 parameter sets at 1 preemption; a user-run try-submit-jobs from the login host and from another host starting at any point (free start) on 2 graphs, and with 1 preemption on the 2-job chain; G(2..3) x exit codes x cancel flags x 3 parameter sets at budget 0; any one batch refused by the scheduler on 4 graphs (batch numbering)"
     else:
         tasks = input_grid_tasks(["C01"], ns=(1, 2, 3))
         tasks += input_grid_tasks(["C01"], ns=(4,), two_groups=False, max_nodes=(1, None), caps=(3,))
@@ -460,10 +462,11 @@ def _c0304(prop, tier):
         tasks += rep_tasks([prop], (0, 0), graphs=["fan5"], params=[("one-batch-q2", dict(size=5, nproc=2)), ("sz2-q1", dict(size=2, nproc=1)), ("local", dict(nproc=2))],
                            exit_sets=lambda n: [None, (1, 0, 0, 0, 0), (0, 1, 0, 0, 0)], cancel_sets=lambda n: [(0, 1, 0, 1, 0)], stutter=1)
         tasks += backlog_tasks([prop])
+        tasks += rep_tasks([prop], (0, 0), graphs=["indep11"], params=[("sz1-mx2", dict(size=1, max_nodes=2)), ("sz1-mx3", dict(size=1, max_nodes=3))], finish_orders="default")
         tasks += rep_tasks([prop], (0, 0), graphs=["cancelfan7"], params=[("one-batch-q2", dict(size=7, nproc=2)), ("sz3-q2", dict(size=3, nproc=2))],
                            exit_sets=lambda n: [(0, 1, 0, 0, 0, 0, 0)], cancel_sets=lambda n: [(0, 0, 1, 1, 1, 0, 0)], stutter=1)
         bounds = ("G(1..3) x exit codes {0,1}^n x cancel flags on blocked jobs x 7 parameter sets (incl. two groups, max-nodes 1, local, time-based) "
-                  "at budget 0 with all finish orders; 5 REP graphs x single failures x flags at 1 preemption with the recovery actor; a user-run try-submit-jobs at any point (1 preemption on 2-job graphs, budget 0 on 3-job graphs); --no-distributed-submitter with the user running try-submit-jobs at any time; a 5-job fan-out and a 7-job cancel fan-out")
+                  "at budget 0 with all finish orders; 5 REP graphs x single failures x flags at 1 preemption with the recovery actor; a user-run try-submit-jobs at any point (1 preemption on 2-job graphs, budget 0 on 3-job graphs); --no-distributed-submitter with the user running try-submit-jobs at any time; a 5-job fan-out and a 7-job cancel fan-out; 11 batches (two-digit batch numbers)")
     else:
         tasks = outcome_tasks([prop], ns=(1, 2, 3))
         tasks += outcome_tasks([prop], ns=(2, 3), codes=(0, 2, 255), params=C03_PARAMS[:2])
@@ -509,6 +512,14 @@ def c05(tier):
         t["id"] += "-showstatus"
         tasks.append(t)
     tasks += input_grid_tasks(["C05"], ns=(1, 2, 3))
+    for t in rep_tasks(["C05"], b, graphs=["pair", "chain3", "fork"], params=params[1:3]):
+        n = len(t["scen"]["jobs"])
+        a = dict(SHOW_STATUS_REC)
+        a["repeat"] = n + 2
+        t["scen"]["actors"] = [a]
+        t["scen"]["foreign_jobs"] = ["777", "778"]
+        t["id"] += "-showstatus-foreignjobs"
+        tasks.append(t)
     tasks += user_round_tasks(["C05"], (1, 0), ["pair", "chain2"], params=[("sz1-mxN", dict(size=1, max_nodes=None))])
     tasks += user_round_tasks(["C05"], (0, 0) if tier == "quick" else (1, 0), ["indep3", "fork"])
     tasks += manual_submitter_tasks(["C05"], (0, 0) if tier == "quick" else (1, 0), ["pair", "chain2", "fork"])
@@ -520,7 +531,7 @@ def c05(tier):
         t["scen"]["level"] = 1
         t["id"] += "-L1"
         tasks.append(t)
-    bounds = f"REP graphs x max-nodes {{1,2,unset}} at {b[0]} preemption(s) with the recovery actor (try-submit-jobs and show-status -n forms, re-armed up to n_jobs+2 times); G(1..3) x parameter grid at budget 0; a user-run try-submit-jobs at any point; failures x cancel flags; resubmission histories on every 3-job DAG; 3 graphs at sync level L1 (results.json / marker accesses are scheduling points)"
+    bounds = f"REP graphs x max-nodes {{1,2,unset}} at {b[0]} preemption(s) with the recovery actor (try-submit-jobs and show-status -n forms, re-armed up to n_jobs+2 times; also with unrelated jobs of the same user in squeue); G(1..3) x parameter grid at budget 0; a user-run try-submit-jobs at any point; failures x cancel flags; resubmission histories on every 3-job DAG; 3 graphs at sync level L1 (results.json / marker accesses are scheduling points)"
     return explore_check("C05", tier, tasks, S_RULE, COMMON_ASSUMPTIONS, dict(bounds=bounds))
 
 
@@ -581,6 +592,20 @@ def c06(tier):
             sc["aux_files"] = {"groups2.json": S.groups_file_text(sc2)}
             sc["resubmit_nproc"] = q2
             tasks.append(dict(id=f"c06-resub-groups-{g}-q{q1}-q{q2}", scen=sc, oracles=["Obs", "C06"], budget=(0, 0), cls="resubmit+new-groups"))
+    for g in ("pair", "indep3"):
+        bb = S.REP[g]
+        n = len(bb)
+        for mx in (1, 2):
+            actors = [rec_actor(n), dict(name="resub", argv=resub_argv(1, 1, 1), host="login1", guard="complete_demoted"),
+                      dict(name="rec2", argv=["jade", "try-submit-jobs", "{out}"], host="login2", guard="idle_incomplete", after="resub", repeat=n + 2)]
+            sc = mk_scen(bb, dict(size=1, max_nodes=mx), actors=actors)
+            tasks.append(dict(id=f"c06-resub-while-last-node-runs-{g}-mx{mx}", scen=sc, oracles=["Obs", "C06"], budget=(0, 0), cls="resubmit+old-batch-active"))
+    # an active batch shown by squeue in a state JADE has no name for (SUSPENDED) still occupies its slot
+    for t in rep_tasks(["C06", "C03"], (0, 0), graphs=["pair", "indep3", "fork"], params=[("sz1-mx1", dict(size=1, max_nodes=1)), ("sz1-mx2", dict(size=1, max_nodes=2))]):
+        t["scen"]["odd_states"] = 1
+        t["id"] += "-oddstate"
+        t["cls"] = "unusual-squeue-state"
+        tasks.append(t)
     # a failing status query / a lock timeout in a round must not make the limit forgettable
     for t in rep_tasks(["C06"], (0, 1), graphs=["indep3", "indep4"], params=[("sz1-mx1", dict(size=1, max_nodes=1)), ("sz1-mx2", dict(size=1, max_nodes=2))]):
         t["fault"] = dict(plan="c11", kinds=["squeue", "lock"])
@@ -588,7 +613,7 @@ def c06(tier):
         t["id"] += "-squeue-or-lock-fault"
         t["scen"]["actors"] = [dict(name="rec", argv=["jade", "try-submit-jobs", "{out}"], host="login2", guard="idle_incomplete", repeat=3)]
         tasks.append(t)
-    bounds = f"REP graphs x max-nodes {{1,2}} x processes {{1,2,unset/2 CPUs}} x batch sizes 1-3 at {b[0]} preemption(s); G(3) grid; local mode; failures + cancel flags (incl. a 7-job cancel fan-out in one queue, with up to 2 polls at which nothing finishes); two groups with different process limits; one failing status query (squeue down for a whole round) or one lock-acquisition timeout in a submitter round; resubmission with a groups file that changes the process limit"
+    bounds = f"REP graphs x max-nodes {{1,2}} x processes {{1,2,unset/2 CPUs}} x batch sizes 1-3 at {b[0]} preemption(s); G(3) grid; local mode; failures + cancel flags (incl. a 7-job cancel fan-out in one queue, with up to 2 polls at which nothing finishes); two groups with different process limits; one failing status query (squeue down for a whole round) or one lock-acquisition timeout in a submitter round; resubmission with a groups file that changes the process limit; resubmission while the completing node's batch is still running; one squeue answer per execution showing an active batch as SUSPENDED"
     return explore_check("C06", tier, tasks, S_RULE, COMMON_ASSUMPTIONS, dict(bounds=bounds))
 
 
@@ -841,6 +866,17 @@ def c14(tier):
             for j in t["scen"]["jobs"]:
                 j["est"] = 2
         tasks += tb
+        sq = cancel_tasks(["C14"], (0, 1), ["indep3"], followups=False, params=[("sz1-mx2", dict(size=1, max_nodes=2))])
+        for t in sq:
+            t["fault"] = dict(plan="c11", kinds=["squeue"], victims=["n", "login"])
+            t["scen"]["free_at_poll"] = True
+            t["id"] += "-squeue-fault"
+        tasks += sq
+        odd = cancel_tasks(["C14"], (0, 0), ["pair", "chain3"], followups=False, params=[("sz1-mx2", dict(size=1, max_nodes=2))])
+        for t in odd:
+            t["scen"]["odd_states"] = 1
+            t["id"] += "-oddstate"
+        tasks += odd
         tasks += shard(cancel_tasks(["C14"], (1, 0), ["chain2", "pair"], followups=False, params=[("sz1-mx1", dict(size=1, max_nodes=1)), ("sz1-mxN", dict(size=1, max_nodes=None))]), 4)
         tasks += cancel_tasks(["C14"], (0, 0), graphs + ["join", "twocomp"], followups=False,
                               params=[("sz1-mxN", dict(size=1, max_nodes=None)), ("sz2-mx2", dict(size=2, max_nodes=2))])
@@ -855,7 +891,7 @@ def c14(tier):
         tasks += shard(tb, 4)
         tasks += shard(cancel_tasks(["C14"], (2, 0), ["indep3", "chain3"], followups=False), 32)
     bounds = (f"{len(graphs)} REP graphs x max-nodes {{1,unset}} (count-based and time-based batching) with cancel-jobs starting at any point (free first step) followed by every sequence of length <=2 over "
-              f"{{try-submit-jobs, show-status -n}} and the surviving nodes' rounds; " + ("budget 0 (cancel at every point, default continuation, all job-finish orders and lingering-CANCELLED answers); 1 preemption on the 2-job graphs" if tier == "quick" else "1 preemption for all, 2 for the no-follow-up scenarios on 2 graphs"))
+              f"{{try-submit-jobs, show-status -n}} and the surviving nodes' rounds; " + ("budget 0 (cancel at every point, default continuation, all job-finish orders and lingering-CANCELLED answers); 1 preemption on the 2-job graphs; one failing status query before the cancel; one squeue answer showing an active batch as SUSPENDED" if tier == "quick" else "1 preemption for all, 2 for the no-follow-up scenarios on 2 graphs"))
     return explore_check("C14", tier, tasks, S_RULE, COMMON_ASSUMPTIONS + ["scancel kills the node at once; a cancelled batch may linger in squeue as CANCELLED (zero-cost choice per query)"], dict(bounds=bounds))
 
 
@@ -1063,6 +1099,20 @@ def c13_tasks(tier):
                 sc = mk_scen(bb, gkw, actors=actors)
                 tasks.append(dict(id=f"resub-early-{g}-{host}-{tag}", scen=sc, oracles=["Obs", "C13"],
                                   budget=(0, 0) if tier == "quick" else (1, 0), cls="resubmit-incomplete"))
+    # one fault in the resubmission (in the command itself, or in the round that completes the resubmission):
+    # the submission can still be driven to completion, and a second resubmission selects by the real outcomes
+    for g in ("chain2", "fork"):
+        bb = S.REP[g]
+        n = len(bb)
+        actors = [rec_actor(n), dict(name="resub", argv=resub_argv(1, 1, 0), host="login1", guard="complete"),
+                  dict(name="rec2", argv=["jade", "try-submit-jobs", "{out}"], host="login2", guard="idle_incomplete", after="resub", repeat=n + 3),
+                  dict(name="resub2", argv=resub_argv(1, 1, 0), host="login1", guard="complete", after="resub"),
+                  dict(name="rec3", argv=["jade", "try-submit-jobs", "{out}"], host="login2", guard="idle_incomplete", after="resub2", repeat=n + 2)]
+        sc = mk_scen(bb, dict(size=1, max_nodes=None), actors=actors, level=2, free_at_poll=True)
+        sc["exit_codes"] = {"a": [1, 0]}
+        for tag, victims, kinds in (("cmd", ["resub"], ["squeue", "sbatch"]), ("rounds", ["n", "rec2"], ["write", "squeue"])):
+            tasks.append(dict(id=f"resub-fault-{g}-{tag}", scen=sc, oracles=["Obs", "C13"], budget=(0, 1),
+                              fault=dict(plan="c11", victims=victims, kinds=kinds, from_epoch=0 if tag == "cmd" else 1, write_paths=["results.json"]), cls="resubmit+fault"))
     # cancel, then resubmit the missing jobs
     for g in ("indep3", "chain3"):
         bb = S.REP[g]
@@ -1078,7 +1128,7 @@ def c13_tasks(tier):
 def c13(tier):
     tasks = c13_tasks(tier)
     bounds = ("completed submissions produced by the real code for REP graphs x single failures (rerun succeeds / fails again) x cancel flags x one refused batch (missing jobs) x reports on/off, "
-              "then resubmit-jobs with all 8 flag combinations run to completion (and a second resubmission); every 3-job DAG x failing job x cancel flags; resubmit-jobs as soon as the completion flag is on disk; resubmit-jobs as a free-start actor at every point of an incomplete submission from 3 hosts; cancel then resubmit")
+              "then resubmit-jobs with all 8 flag combinations run to completion (and a second resubmission); every 3-job DAG x failing job x cancel flags; resubmit-jobs as soon as the completion flag is on disk; resubmit-jobs as a free-start actor at every point of an incomplete submission from 3 hosts; cancel then resubmit; one fault (failing status query or sbatch in the resubmit command; failing status query or EDQUOT at results.json in a round of the resubmission) at L2, followed by recovery rounds and a second resubmission")
     return explore_check("C13", tier, tasks, S_RULE, COMMON_ASSUMPTIONS, dict(bounds=bounds))
 
 
@@ -1374,6 +1424,16 @@ def c12(tier):
             t["cls"] = "faults-L2"
             tasks.append(t)
     tasks += cyclic_tasks(["C12"])
+    for t in rep_tasks(["C12"], (0, 1), graphs=["pair", "chain3"], params=params[:1]):
+        n = len(t["scen"]["jobs"])
+        a = dict(SHOW_STATUS_REC)
+        a["repeat"] = n + 2
+        t["scen"]["actors"] = [a]
+        t["scen"]["foreign_jobs"] = ["777"]
+        t["fault"] = dict(plan="c12")
+        t["id"] += "-showstatus-foreignjobs"
+        t["cls"] = "faults+show-status"
+        tasks.append(t)
     if tier == "quick":
         # node kill at the L2 points of its job phase (inside the critical section of its results file)
         for t in rep_tasks(["C12"], (0, 1), graphs=["pair", "chain2"], params=params[:1]):
